@@ -433,7 +433,7 @@ func runC10(w *World, r *Report) {
 				"a self-reporting component delivers OnStart, then a panic of the work in between (a template engine dividing by zero on the caller's variables, a user MessagesTemplate) unwinds through it: the handlers of the node see start and never end / error — a leaked span on every such failure — while a lambda node panicking at the same spot gets start + error from runWithCallbacks")
 		}
 		if n == 0 {
-			undecidedf("C10.self-reporting-ends-on-panic: no self-reporting component method calling callbacks.OnStart found")
+			r.Deferred = append(r.Deferred, fmt.Sprintf("C10.self-reporting-ends-on-panic: no self-reporting component method calling callbacks.OnStart found"))
 		}
 	}
 
@@ -460,7 +460,7 @@ func runC10(w *World, r *Report) {
 			})
 		}
 		if n < 3 {
-			undecidedf("C10.manager-derivations-complete: only %d manager literals found", n)
+			r.Deferred = append(r.Deferred, fmt.Sprintf("C10.manager-derivations-complete: only %d manager literals found", n))
 		}
 	}
 
@@ -546,7 +546,7 @@ func runC10(w *World, r *Report) {
 			})
 		}
 		if n < 3 {
-			undecidedf("C10.flow-units-iff-not-self: only %d callback calls found around Retriever.Retrieve", n)
+			r.Deferred = append(r.Deferred, fmt.Sprintf("C10.flow-units-iff-not-self: only %d callback calls found around Retriever.Retrieve", n))
 		}
 	}
 
@@ -596,7 +596,7 @@ func runC10(w *World, r *Report) {
 			}
 		}
 		if n < 5 {
-			undecidedf("C10.timing-matches-handle: only %d On(…) calls with a literal handle/timing pair found", n)
+			r.Deferred = append(r.Deferred, fmt.Sprintf("C10.timing-matches-handle: only %d On(…) calls with a literal handle/timing pair found", n))
 		}
 	}
 
@@ -934,7 +934,7 @@ func runC10(w *World, r *Report) {
 			})
 		}
 		if n < 3 {
-			undecidedf("C10.flow-inner-units-own-run-info: only %d inner component calls found in the retriever / indexer flows", n)
+			r.Deferred = append(r.Deferred, fmt.Sprintf("C10.flow-inner-units-own-run-info: only %d inner component calls found in the retriever / indexer flows", n))
 		}
 	}
 
@@ -949,7 +949,7 @@ func runC10(w *World, r *Report) {
 			r.Check(nm == "runWithCallbacks" || nm == "onGraphError", "C10.one-reporter-per-unit", fmt.Sprintf("onError called from %s", w.fname(origin(top))), c.Pos(), "the wrapper that reported the start / the graph's run", "a second reporter: runWithCallbacks (and a self-reporting component) already report a panic to the handlers and re-panic, so a node execution that panics gets OnStart, OnError, OnError — two ends for one start, for run-wide, designated and global handlers alike")
 		}
 		if n < 1 {
-			undecidedf("C10.one-reporter-per-unit: no caller of onError found")
+			r.Deferred = append(r.Deferred, fmt.Sprintf("C10.one-reporter-per-unit: no caller of onError found"))
 		}
 	}
 
@@ -1016,7 +1016,7 @@ func runC10(w *World, r *Report) {
 			})
 		}
 		if n < 2 {
-			undecidedf("C10.timing-checker-optional: only %d TimingChecker assertions found", n)
+			r.Deferred = append(r.Deferred, fmt.Sprintf("C10.timing-checker-optional: only %d TimingChecker assertions found", n))
 		}
 	}
 
